@@ -1,6 +1,7 @@
 import TinsModel.Wire.Wifi.TheoremsDot11
 import TinsModel.Wire.Wifi.TheoremsDot11Api
 import TinsModel.Wire.Wifi.TheoremsEapol
+import TinsModel.Wire.Wifi.TheoremsRadioTap
 /-
   Per-layer theorems of the Wifi family for the four wire properties (C01 parse_safe, C02 writesOnly,
   C03 reparse, C04 codec inverses), split by class group:
@@ -8,6 +9,7 @@ import TinsModel.Wire.Wifi.TheoremsEapol
                       parse safety incl. the tagged-parameter loop and `Dot11::from_bytes`, size-exact writer
     TheoremsDot11Api  the size invariant over API histories (constructors, setters, add/remove option)
     TheoremsEapol     RC4EAPOL / RSNEAPOL / `EAPOL::from_bytes`
+    TheoremsRadioTap  RadioTap: the RadioTapParser walk is memory-safe and terminates, parse safety, FCS trailer writer
 -/
 namespace Tins.Wire.Wifi
 open Tins Tins.Wire
@@ -30,5 +32,15 @@ example :
 /-- an RSN EAPOL key frame with a 2-byte key and 1 byte of payload -/
 example : ∃ e, Eapol.parse true ([2, 3, 0, 98, 2] ++ List.replicate 92 0 ++ [0, 2, 7, 8, 9]) = .ok (e, .raw [9]) ∧ e.key = [7, 8] :=
   ⟨_, rfl, rfl⟩
+
+/-- a RadioTap header with TSFT + FLAGS (FCS bit set) in front of an ACK frame and its FCS: the walk finds FLAGS, the
+    FCS is cut off the inner frame and `trailer_size()` is 4 -/
+example : RadioTap.parse ([0, 0, 17, 0, 3, 0, 0, 0] ++ List.replicate 8 7 ++ [0x10] ++
+    [0xd4, 0, 0, 0, 1, 2, 3, 4, 5, 6] ++ [9, 9, 9, 9]) =
+    .ok (⟨[0, 0, 17, 0], [3, 0, 0, 0] ++ List.replicate 8 7 ++ [0x10]⟩, .cls "Dot11*" [0xd4, 0, 0, 0, 1, 2, 3, 4, 5, 6] false) := rfl
+example : RadioTap.trl ⟨[0, 0, 17, 0], [3, 0, 0, 0] ++ List.replicate 8 7 ++ [0x10]⟩ = 4 := rfl
+
+/-- a present-word chain whose `ext` bits run off the end of the header is rejected, not followed -/
+example : RadioTap.parse ([0, 0, 12, 0, 0, 0, 0, 0x80, 0, 0, 0, 0x80] ++ List.replicate 8 0) = .throw .malformedPacket := rfl
 
 end Tins.Wire.Wifi
